@@ -1,6 +1,7 @@
 package head
 
 import (
+	"errors"
 	"fmt"
 
 	"github.com/invopop/gobl/cbc"
@@ -76,6 +77,9 @@ func detectDuplicateLinks(list any) error {
 	set := []*Link{}
 	// loop through and check order of Since value
 	for _, v := range values {
+		if v == nil {
+			return errors.New("must not contain empty entries")
+		}
 		if l := LinkByKey(set, v.Key); l != nil {
 			return fmt.Errorf("duplicate key '%v'", v.Key)
 		}
